@@ -943,7 +943,7 @@ class, interleaved, ids up to the matrix size, occasionally broken files); texts
 1-3 characters; kinds: buf (tables + prefix/context relation), prov (one provider, every offset x created masks incl. the saturated bit and \
 existing ends), lat (1-4 providers in every order, random lexicon, optional NFKC input plugin; all lattice nodes), info (OOV morphemes). \
 non-trivial = multi-class text of >=3 characters (buf), some node produced (prov), some OOV node in the lattice (lat); distinct by full line".into();
-    let wd = Workdir::new("c13");
+    let wd = Workdir::new_legacy("c13");
     let system = build_dic(&fixed_rows(), 77);
     let sp0 = SimpleP { l: 0, r: 0, cost: 0, pos: 0 };
     wd.write("unk.def", "");
